@@ -8,6 +8,7 @@ import (
 	"math/rand"
 	"os"
 	"runtime"
+	"runtime/debug"
 	"strings"
 	"time"
 
@@ -547,6 +548,11 @@ func c17Run(c *fw.Case, env *fw.Env) *fw.Obs {
 		}
 		runtime.ReadMemStats(&ms)
 		alloc := int64(ms.TotalAlloc - before)
+		if alloc > 256<<20 {
+			// give a large allocation back at once: under the address-space limit it would otherwise make a later,
+			// innocent input die of memory exhaustion at an arbitrary place
+			debug.FreeOSMemory()
+		}
 		o.Ev("oracle_evaluations", 1)
 		o.Ev("inputs_"+p.Mut, 1)
 		if err != nil {
@@ -696,6 +702,11 @@ func c17Receive(c *fw.Case, env *fw.Env, o *fw.Obs, p *c17Params) *fw.Obs {
 		}
 		runtime.ReadMemStats(&ms)
 		alloc := int64(ms.TotalAlloc - before)
+		if alloc > 256<<20 {
+			// give a large allocation back at once: under the address-space limit it would otherwise make a later,
+			// innocent input die of memory exhaustion at an arbitrary place
+			debug.FreeOSMemory()
+		}
 		o.Ev("oracle_evaluations", 1)
 		o.Ev("inputs_"+p.Mut, 1)
 		if pn != "" {
